@@ -647,7 +647,7 @@ func writeEvidence(p e.Profile, prop, tier string, seed uint64, a *aggT, rs []wo
 	}
 	comp := map[string]any{
 		"real": []string{"app.Haqq (BaseApp, all keepers, ante chains, EVM + precompiles, IBC core/transfer)", "rootmulti+IAVL store over SimDB", "tx encoding and signing (ethsecp256k1, EIP-155, EIP-712)"},
-		"stub": []string{"CometBFT consensus/p2p/mempool (scheduler builds blocks and calls ABCI)", "clients, validators' votes, relayer (seeded actors)", "IBC counter-party chain (loopback over connection-localhost)"},
+		"stub": []string{"CometBFT consensus/p2p/mempool (scheduler builds blocks and calls ABCI)", "clients, validators' votes and evidence (seeded actors)", "no IBC counter-party in this check (channels exist only in the two-chain runs of C10)"},
 	}
 	if cp, ok := p.(interface{ Components() map[string]any }); ok {
 		comp = cp.Components()
